@@ -201,7 +201,7 @@ def rule_label_rule_only_before_colon(ctx, fx, config, prop="C20"):
         ctx.check(ok, "TABLE", "%s:TABLE:label-rule-only-before-colon:%s#%d" % (prop, f.name, k), "text written with the key / label quoting rule is followed by `:` on every successful path",
                   "%s writes text with the key / label quoting rule (write_plain_or_quoted) in a position that is not followed by `:`: a value written that way is not protected against flow indicators or YAML 1.1 boolean / float spellings (`!!E yes` reads back as a bool)" % f.npath,
                   config, ctx.where(f, b))
-    ctx.floor("TABLE.label-rule-callers", n, 6, config)
+    ctx.floor("TABLE.label-rule-callers", n, 3, config)  # (callers may legitimately be merged: the floor guards against vacuity only)
 
 
 def rule_variants_in_flow(ctx, fx, config, prop="C20"):
